@@ -11,6 +11,10 @@ import (
 // Parses with strconv.ParseInt and the base set to 0 so base prefixes are available.
 // Whitespace is trimmed around the integers before parsing to allow for reasonable separtion (shell word-splitting aside)
 func SignedIntegralSlice[I int | int64 | int32 | int16 | int8](s string) ([]I, error) {
+	if len(s) == 0 {
+		// the empty string is the text form of the empty slice
+		return []I{}, nil
+	}
 	parts := strings.Split(s, ",")
 	out := make([]I, len(parts))
 
@@ -30,6 +34,10 @@ func SignedIntegralSlice[I int | int64 | int32 | int16 | int8](s string) ([]I, e
 // Parses with strconv.ParseInt and the base set to 0 so base prefixes are available.
 // Whitespace is trimmed around the integers before parsing to allow for reasonable separtion (shell word-splitting aside)
 func UnsignedIntegralSlice[I uint | uint64 | uint32 | uint16 | uint8 | uintptr](s string) ([]I, error) {
+	if len(s) == 0 {
+		// the empty string is the text form of the empty slice
+		return []I{}, nil
+	}
 	parts := strings.Split(s, ",")
 	out := make([]I, len(parts))
 
